@@ -88,7 +88,37 @@ pod!(P8, repr(transparent), u64, |i: u64| i, |x: u64| x);
 pod!(P3, repr(transparent), [u8; 3], |i: u64| [i as u8, (i >> 8) as u8, (i >> 16) as u8], |x: [u8; 3]| x[0] as u64 | (x[1] as u64) << 8 | (x[2] as u64) << 16);
 pod!(P12, repr(transparent), [u32; 3], |i: u64| [i as u32, 7, 9], |x: [u32; 3]| x[0] as u64);
 pod!(P24, repr(transparent), [u64; 3], |i: u64| [i, 1, 2], |x: [u64; 3]| x[0]);
-pod!(P16, repr(C, align(16)), [u64; 2], |i: u64| [i, 3], |x: [u64; 2]| x[0]);
+// 16-byte aligned plain data. On x86-64 the payload is a SIMD register type: a store that assumes alignment faults at a misaligned
+// address (movaps), so an alignment-requiring store into misaligned storage is observable as a crash, not only as undefined behaviour.
+#[cfg(target_arch = "x86_64")]
+mod p16 {
+    pub type Inner = std::arch::x86_64::__m128i;
+    pub fn to(i: u64) -> Inner { unsafe { std::mem::transmute([i, 3u64]) } }
+    pub fn from(x: Inner) -> u64 { let a: [u64; 2] = unsafe { std::mem::transmute(x) }; a[0] }
+}
+#[cfg(not(target_arch = "x86_64"))]
+mod p16 {
+    #[derive(Clone, Copy, PartialEq, Debug)]
+    #[repr(C, align(16))]
+    pub struct Inner(pub [u64; 2]);
+    pub fn to(i: u64) -> Inner { Inner([i, 3]) }
+    pub fn from(x: Inner) -> u64 { x.0[0] }
+}
+#[derive(Clone, Copy)]
+#[repr(transparent)]
+pub struct P16(pub p16::Inner);
+impl PartialEq for P16 { fn eq(&self, o: &Self) -> bool { p16::from(self.0) == p16::from(o.0) } }
+impl std::fmt::Debug for P16 { fn fmt(&self, f: &mut std::fmt::Formatter<'_>) -> std::fmt::Result { write!(f, "P16({})", p16::from(self.0)) } }
+impl V for P16 {
+    fn mk(id: u64) -> Self { P16(p16::to(id)) }
+    fn show(&self) -> String { p16::from(self.0).to_string() }
+}
+impl serde::Serialize for P16 {
+    fn serialize<S: serde::Serializer>(&self, s: S) -> Result<S::Ok, S::Error> { s.serialize_u64(p16::from(self.0)) }
+}
+impl<'de> serde::Deserialize<'de> for P16 {
+    fn deserialize<D: serde::Deserializer<'de>>(d: D) -> Result<Self, D::Error> { Ok(Self::mk(u64::deserialize(d)?)) }
+}
 
 macro_rules! droppable {
     ($name:ident, $tag:expr, $repr:meta, $inner:ty, $to:expr, $from:expr) => {
